@@ -50,4 +50,48 @@ def Pat.startSafe : Pat → Bool
   | .ext _ p => p.startSafe
   | _ => true
 
+/-- first token of a sequence -/
+def Pat.headTok : Pat → Option Pat
+  | .eps => none
+  | .seq a b => match a.headTok with
+    | some t => some t
+    | none => b.headTok
+  | p => some p
+
+/-- what follows the first token -/
+def Pat.tailToks : Pat → Pat
+  | .seq a b => if a.isEmpty then b.tailToks else (match a with
+    | .seq _ _ => .seq a.tailToks b
+    | _ => b)
+  | _ => .eps
+
+/-- D4 trigger: the segment starts with `*` and the next token is not literal text -/
+def Pat.d4Trigger (g : Pat) : Bool :=
+  match g.headTok with
+  | some .star => (match g.tailToks.headTok with
+    | some (.lit _) => false
+    | none => false
+    | _ => true)
+  | _ => false
+
+/-- D5 trigger (over-approximation): the segment starts with an extended group -/
+def Pat.d5Trigger (g : Pat) : Bool :=
+  match g.headTok with
+  | some (.ext _ _) => true
+  | _ => false
+
+/-- D15 trigger: a `!(…)` one of whose alternatives begins with a written `.` -/
+def Pat.altStartsDot : Pat → Bool
+  | .alt a b => a.altStartsDot || b.altStartsDot
+  | p => match p.headTok with
+    | some (.lit c) => c == '.'
+    | _ => false
+
+def Pat.d15Trigger : Pat → Bool
+  | .ext .neg b => b.altStartsDot
+  | .ext _ b => b.d15Trigger
+  | .seq a b => a.d15Trigger || b.d15Trigger
+  | .alt a b => a.d15Trigger || b.d15Trigger
+  | _ => false
+
 end WcModel
